@@ -169,7 +169,7 @@ func check(o *runOpts) int {
 	}
 	// packages whose contract files declare extern contracts are always loaded (their specs are evaluated there)
 	for _, k := range cs.FuncKeysSorted() {
-		if fc := cs.Funcs[k]; fc.Extern {
+		if fc := cs.Funcs[k]; fc.Extern && !cs.Rendered[fc.DeclPkg] {
 			pkgSet[fc.DeclPkg] = true
 		}
 	}
